@@ -12,6 +12,13 @@ func TestMain(m *testing.M) {
 		fmt.Fprintln(os.Stderr, "cannot load pinned schema:", err)
 		os.Exit(2)
 	}
+	LoadDictionary()
+	if out := os.Getenv("VERIF_WRITE_DICT"); out != "" {
+		b, _ := json.MarshalIndent(Dict, "", " ")
+		_ = os.WriteFile(out, append(b, '\n'), 0o644)
+		fmt.Printf("dictionary baseline written: %d words, %d numbers, %d env names\n", len(Dict.Words), len(Dict.Numbers), len(Dict.EnvNames))
+		os.Exit(0)
+	}
 	code := m.Run()
 	Col.Flush(code)
 	os.Exit(code)
